@@ -18,6 +18,10 @@ CLAIMS = {
             "CURRENT, GRD-1/ORD-6 WAL replay selection and order", "§5 C02", "must-pass-through / success-edge dominance over MIR CFG"),
     "C03": ("GRD-2 compaction retention guards, ORD-7 smallest-snapshot source, LCK-1 capture under the mutex, PAIR-1 version pins, "
             "VERD-1", "§5 C03", "control-dependence guards + origin dataflow + lock regions"),
+    "C04": ("PAIR-7 direction agreement of the 20 positioning methods of TwoLevelIterator / FilesEntryIterator / MergingIterator / "
+            "DatabaseIterator (forward methods position through the forward helper, backward through the backward helper, a value is returned "
+            "only after the helper ran, an exhausted child makes the two-level iterators move on) and GRD-3 the sequence filter of the "
+            "client iterator; NOT the cursor-vs-sorted-map equivalence", "§6/§11.3 C04", "sibling direction table + must-pass-through"),
     "C05": ("LCK-2 atomic capture of (sequence, memtable, immutable memtable, version) under the mutex; ORD-8 publication after the "
             "unlocked WAL+memtable section; ORD-9 rotation without release point; OWN-2/OWN-3 single writer", "§5 C05",
             "lock-region dataflow + who-may-call over the call graph"),
@@ -47,11 +51,7 @@ CLAIMS = {
             "GRD-9 non-blocking exclusive lock kind", "§5 C17", "success-edge dominance + who-may-write"),
 }
 
-NA = {
-    "C04": "every clause quantifies over which element a data-dependent loop stops on (cursor position vs. sorted-map model); no "
-           "ordering/ownership/guard/typestate clause whose violation is visible in the shape of the code; a sibling-symmetry proxy "
-           "would fire on behaviour-preserving edits (DESIGN.md §6)",
-}
+NA = {}
 
 
 def main():
